@@ -1354,7 +1354,16 @@ func typeToInt(token string) (uint16, bool) {
 // stringToTTL parses things like 2w, 2m, etc, and returns the time in seconds.
 func stringToTTL(token string) (uint32, bool) {
 	var s, i uint
+	digits := false // a digit was seen since the last unit
 	for _, c := range token {
+		switch c {
+		case 's', 'S', 'm', 'M', 'h', 'H', 'd', 'D', 'w', 'W':
+			if !digits {
+				// A unit applies to the number in front of it.
+				return 0, false
+			}
+			digits = false
+		}
 		switch c {
 		case 's', 'S':
 			s += i
@@ -1374,6 +1383,7 @@ func stringToTTL(token string) (uint32, bool) {
 		case '0', '1', '2', '3', '4', '5', '6', '7', '8', '9':
 			i *= 10
 			i += uint(c) - '0'
+			digits = true
 		default:
 			return 0, false
 		}
@@ -1383,7 +1393,8 @@ func stringToTTL(token string) (uint32, bool) {
 			return 0, false
 		}
 	}
-	if s+i > math.MaxUint32 {
+	if token == "" || s+i > math.MaxUint32 {
+		// The empty string is not a number.
 		return 0, false
 	}
 	return uint32(s + i), true
